@@ -15,10 +15,10 @@ RESP_BITS = 64
 
 
 class MasterTop(Module):
-    def __init__(self, dw, div, mode, ncs):
+    def __init__(self, dw, div, mode, ncs, with_csr=False):
         pads = Record([("clk", 1), ("cs_n", ncs), ("mosi", 1), ("miso", 1)])
         self.pads = pads
-        self.submodules.dut = SPIMaster(pads, dw, sys_clk_freq=div, spi_clk_freq=1, with_csr=False, mode=mode)
+        self.submodules.dut = SPIMaster(pads, dw, sys_clk_freq=div, spi_clk_freq=1, with_csr=with_csr, mode=mode)
         # mode-0 responder: bit 0 of the answer is on MISO while the clock is still low, the next bit
         # appears together with every falling edge of the clock (no delay).
         # `vd`: output delay of the slave: for vd cycles after the falling edge (or CS assertion) MISO still shows the
@@ -509,9 +509,140 @@ def slave_case(col, case):
 DIVS = [2, 3, 4, 5, 6, 7, 8, 9, 11, 16, 17, 33]
 
 
+def master_csr_case(col, case):
+    """SPIMaster through its CSR interface (add_csr): software follows the documented register layout (control.start bit 0,
+    control.length bits 15:8, status.done bit 0 / mode bit 1, mosi, miso, cs.sel bits / cs.mode bit 16, loopback.mode bit 0); the pins
+    must show exactly what software asked for and the miso register what the responder sent."""
+    from litex.soc.interconnect import csr_bus
+    from props.c19lib import CSRMaster
+    rng = rng_for(case["seed"])
+    dw, div, mode, ncs = case["dw"], case["div"], case["mode"], case["ncs"]
+    mt = MasterTop(dw, div, mode, ncs, with_csr=True)
+    top = Module()
+    top.submodules.mt = mt
+    top.bus = csr_bus.Interface(data_width=32, address_width=14)
+    top.submodules.bank = csr_bus.CSRBank(mt.dut.get_csrs(), address=0, bus=top.bus)
+    top.map = {c_.name: i for i, c_ in enumerate(top.bank.simple_csrs)}
+    for c_ in mt.dut.get_csrs():
+        if c_.name not in top.map and c_.name + "0" in top.map:
+            top.map[c_.name] = top.map[c_.name + "0"]
+    viol = Viol()
+    p = mt.pads
+    all1 = (1 << ncs) - 1
+    intents, results = [], []
+    state = {"resp": 0}
+
+    def prog():
+        for i in range(case["n"]):
+            L = rng.choice([1, dw, rng.randint(1, dw), min(dw, 8)])
+            M = rng.getrandbits(dw)
+            sel = 1 << rng.randrange(ncs)
+            loop = int(rng.random() < 0.15)
+            resp = rng.getrandbits(RESP_BITS)
+            state["resp"] = resp
+            yield ("w", "loopback", loop)
+            yield ("w", "cs", sel)
+            yield ("w", "mosi", M)
+            yield ("idle", rng.randint(1, 4))
+            intents.append({"length": L, "mosi": M, "sel": sel, "loop": loop, "resp": resp, "issued": master.writes[-1][0] if master.writes else 0})
+            yield ("w", "control", (L << 8) | 1)
+            yield ("idle", 4)          # the start pulse reaches the core two cycles after the bus write: status.done is low from then on
+            polls = 0
+            while True:
+                st_ = (yield ("r", "status", None))[2]
+                polls += 1
+                if st_ & 1:
+                    break
+                if polls > (L + 4) * div + 50:
+                    viol.add("spi_master_csr/done-never-reported", "transfer %d: status.done still 0 after %d polls" % (i, polls))
+                    return
+            if ((st_ >> 1) & 1) != (1 if mode == "aligned" else 0):
+                viol.add("spi_master_csr/status-mode-field", "status.mode=%d for a core built with mode=%s" % ((st_ >> 1) & 1, mode))
+            miso = (yield ("r", "miso", None))[2]
+            results.append(miso)
+            yield ("idle", rng.randint(1, 2 * div))
+    master = CSRMaster(top, prog(), gap=1)
+
+    class Resp:
+        def signals(self):
+            return []
+
+        def step(self, v, c):
+            return {mt.resp: state["resp"], mt.vd: 0}
+
+    class Pins:
+        """frames seen on the pins: (cs lines asserted, clock pulses, MOSI bits at the rising edges)"""
+        def __init__(self):
+            self.frames, self.cur, self.pclk = [], None, 0
+
+        def signals(self):
+            return [p.clk, p.cs_n, p.mosi]
+
+        def step(self, v, c):
+            act = (~v[p.cs_n]) & all1
+            if act and self.cur is None:
+                self.cur = {"sel": act, "bits": [], "start": c}
+            if self.cur is not None:
+                if act != self.cur["sel"] and act:
+                    viol.add("spi_master_csr/chip-select-changed-inside-frame", "cycle %d: %s -> %s" % (c, bin(self.cur["sel"]), bin(act)), cycle=c)
+                if v[p.clk] and not self.pclk:
+                    self.cur["bits"].append(v[p.mosi])
+                if not act:
+                    self.frames.append(self.cur)
+                    self.cur = None
+            elif v[p.clk] and not self.pclk:
+                viol.add("spi_master_csr/clock-pulse-outside-chip-select", "cycle %d" % c, cycle=c)
+            self.pclk = v[p.clk]
+            return None
+    pins = Pins()
+    tr = Tracer([("clk", p.clk), ("cs_n", p.cs_n), ("mosi", p.mosi), ("miso", p.miso), ("start", mt.dut.start), ("length", mt.dut.length),
+                 ("done", mt.dut.done), ("adr", top.bus.adr), ("we", top.bus.we), ("dat_w", top.bus.dat_w)], depth=48)
+    viol.tracer = tr
+    b = Bench(top, cap=case["n"] * ((dw + 6) * div * 2 + 200) + 500, drain=2 * div + 6)
+    for a in (Resp(), master, pins, tr):
+        b.add(a)
+    ok = b.run()
+    first = intents[0]["issued"] if intents else 0
+    frames = [f for f in pins.frames if f["start"] >= first]          # (the pads' power-up value shows as an empty frame at cycle 0)
+    for i, it in enumerate(intents):
+        if i >= len(frames):
+            viol.add("spi_master_csr/transfer-never-appeared-on-the-pins", "transfer %d of %d (%d frames seen)" % (i, len(intents), len(frames)))
+            break
+        f = frames[i]
+        L = it["length"]
+        exp_bits = [(it["mosi"] >> ((L if mode == "aligned" else dw) - 1 - k)) & 1 for k in range(L)]
+        if f["sel"] != it["sel"]:
+            viol.add("spi_master_csr/wrong-chip-select", "transfer %d: cs.sel=%s written, lines %s asserted" % (i, bin(it["sel"]), bin(f["sel"])), index=i)
+        if len(f["bits"]) != L:
+            viol.add("spi_master_csr/clock-pulse-count", "transfer %d: control.length=%d written, %d pulses" % (i, L, len(f["bits"])), index=i)
+        elif f["bits"] != exp_bits:
+            viol.add("spi_master_csr/mosi-data", "transfer %d: mosi register 0x%x length %d: bits %s expected %s" % (i, it["mosi"], L, f["bits"], exp_bits), index=i)
+        if i < len(results):
+            exp_miso = 0
+            src = exp_bits if it["loop"] else [(it["resp"] >> (RESP_BITS - 1 - k)) & 1 for k in range(L)]
+            for bit in src:
+                exp_miso = (exp_miso << 1) | bit
+            if results[i] & ((1 << L) - 1) != exp_miso:
+                viol.add("spi_master_csr/miso-register", "transfer %d (%s): miso register 0x%x, low %d bits expected 0x%x" % (
+                    i, "loopback" if it["loop"] else "responder", results[i], L, exp_miso), index=i)
+    if len(frames) > len(intents):
+        viol.add("spi_master_csr/frame-nobody-asked-for", "%d frames for %d transfers" % (len(frames), len(intents)))
+    if not ok and not viol:
+        col.inconc(case, "cycle cap in the SPI CSR bench (harness)")
+    col.ev("spi_csr_transfers", len(results))
+    col.ev("spi_csr_bits", sum(len(f["bits"]) for f in frames))
+    col.cov("spi_csr_cfg", "dw=%d div=%d mode=%s ncs=%d" % (dw, div, mode, ncs))
+    viol.flush(col, case, tr, extra={"dut": "SPIMaster(data_width=%d, divider=%d, mode=%s, cs lines=%d, with_csr=True)" % (dw, div, mode, ncs)})
+    col.case_done(case, nontrivial=len(results) >= 3, sample={"case": case, "first_intents": intents[:2], "first_miso": results[:2]})
+
+
 def cases(tier, seed):
     q = tier == "quick"
     out = []
+    for k in range(24 if q else 400):
+        rr = rng_for(seed, "C19/spi_csr", k)
+        out.append({"cls": "spi_master_csr", "seed": "%d/C19/spi_master_csr/%d" % (seed, k), "dw": rr.choice([8, 16, 32, 12, 24]),
+                    "div": rr.choice([2, 3, 4, 7, 10]), "mode": rr.choice(["raw", "aligned"]), "ncs": rr.choice([1, 2, 4]), "n": 5})
     k = 0
     kinds = ["plain", "overlap", "mixed", "loopback", "manual", "held"]
     for rep in range(2 if q else 15):
@@ -538,4 +669,4 @@ def cases(tier, seed):
     return out
 
 
-RUN = {"spi_master": master_case, "spi_master_divchange": master_case, "spi_slave": slave_case}
+RUN = {"spi_master": master_case, "spi_master_divchange": master_case, "spi_slave": slave_case, "spi_master_csr": master_csr_case}
